@@ -61,7 +61,7 @@ def int_enc(size, encoding="unsigned", bo=MSB, default="-", ctx=()):
 
 
 def generate(rng, tier):
-    nspl = 40 if tier == "quick" else 30000
+    nspl = 150 if tier == "quick" else 30000
     for _ in range(nspl):
         xs, ys, pts = spline_sx(rng)
         for order in (0, 1):
@@ -77,7 +77,7 @@ def generate(rng, tier):
     for _ in range(5):
         c = ["spline", "0", "0", [fnum(Fraction(1)), fnum(Fraction(2))]]
         yield f"cal {sx(c)} i1", "spline-single-point"
-    npoly = 120 if tier == "quick" else 12000
+    npoly = 400 if tier == "quick" else 12000
     for _ in range(npoly):
         terms = []
         for _ in range(rng.randrange(0, 5)):
@@ -91,7 +91,7 @@ def generate(rng, tier):
         xt = f"i{x}" if isinstance(x, int) else fnum(x)
         yield f"cal {sx(['poly'] + terms)} {xt}", "poly"
     # --- parameter types: context precedence, enumerations, booleans
-    nt = 150 if tier == "quick" else 12000
+    nt = 500 if tier == "quick" else 12000
     for _ in range(nt):
         size = rng.choice([3, 8, 12, 16])
         data = rng.randbytes(4); pos = rng.randrange(0, 9)
